@@ -81,6 +81,12 @@ func (e *Exec) verifyFunction(fn *ssa.Function, sp *FuncSpec) {
 		}
 		env := &specEnv{goal: true, into: st2, st: st2, old: e.entry, vars: rv, oldVars: vars, pkg: pkgOf(fn), fr: nil}
 		for _, en := range sp.Ensures {
+			// clauses labelled bounded-... speak about the complete effect trace of a path (events inside loops
+			// included): they can only be evaluated where loops are unrolled, i.e. in the bounded fallback, where
+			// they take over what the loop invariants carry in the deductive proof
+			if strings.HasPrefix(en.Label, "bounded-") && e.bounded == 0 {
+				continue
+			}
 			g, err := e.evalSpecBool(en.Expr, env)
 			if err != nil {
 				e.notes = appendUnique(e.notes, fmt.Sprintf("%s: ensures %s: %v", name, en.Label, err))
@@ -89,7 +95,7 @@ func (e *Exec) verifyFunction(fn *ssa.Function, sp *FuncSpec) {
 			}
 			e.oblige(st2, name+"/post:"+en.Label, en.Props, g, en.Src)
 			// vacuity guard: the premise of a conditional postcondition must be reachable on some path
-			if ce, ok := en.Expr.(*ast.CallExpr); ok {
+			if ce, ok := en.Expr.(*ast.CallExpr); ok && e.bounded == 0 {
 				if id, ok := ce.Fun.(*ast.Ident); ok && id.Name == "implies" && len(ce.Args) == 2 {
 					if prem, err := e.evalSpecBool(ce.Args[0], env); err == nil && prem.S != "false" {
 						saved := st2.pc
@@ -565,6 +571,35 @@ func dischargeAll(obls []*Obligation, timeoutS int) {
 		}(o)
 	}
 	wg.Wait()
+	// a timeout or a killed solver says nothing about the goal, and both happen when the machine is busy
+	// (many checks side by side): such queries are asked once more, a few at a time, with three times the budget
+	var again []*Obligation
+	for _, o := range obls {
+		if !o.Cover && (o.Res.Status == "timeout" || o.Res.Status == "error") && !strings.Contains(o.Res.Output, "solvers disagree") {
+			again = append(again, o)
+		}
+	}
+	if len(again) > 0 && len(again) <= 200 {
+		sem := make(chan struct{}, 4)
+		for _, o := range again {
+			wg.Add(1)
+			go func(o *Obligation) {
+				defer wg.Done()
+				sem <- struct{}{}
+				defer func() { <-sem }()
+				q := o.Query(true)
+				forgetResult(q)
+				t := timeoutS * 3
+				if t > 90 {
+					t = 90
+				}
+				r := Solve(o.Name, q, t, false)
+				r.TimeS += o.Res.TimeS
+				o.Res = r
+			}(o)
+		}
+		wg.Wait()
+	}
 }
 
 // aggregate obligations by name
@@ -576,6 +611,7 @@ type AggOb struct {
 	TimeS   float64
 	Solvers map[string]int
 	anyCover bool
+	Top     string
 }
 
 func aggregate(obls []*Obligation) []*AggOb {
@@ -584,7 +620,7 @@ func aggregate(obls []*Obligation) []*AggOb {
 	for _, o := range obls {
 		a := m[o.Name]
 		if a == nil {
-			a = &AggOb{Name: o.Name, Solvers: map[string]int{}}
+			a = &AggOb{Name: o.Name, Solvers: map[string]int{}, Top: o.Top}
 			m[o.Name] = a
 			order = append(order, o.Name)
 		}
